@@ -37,6 +37,7 @@ type c06Case struct {
 	RecvRev  bool     `json:"recvrev,omitempty"`  // recovery packets in descending order, duplicated
 	Big      int      `json:"big,omitempty"`      // 0: tiny files; 1, 2: files above 16 KiB (17000 and 16500 bytes, slice 500), generation Big-1 of the content beyond the first 16 KiB
 	PriorGen bool     `json:"priorgen,omitempty"` // history in the process: the OTHER generation of the same set (same names, lengths, first 16 KiB => same file ids and set id; other content) was verified first, in a directory of its own
+	Dec      *decProtoCase `json:"dec,omitempty"` // operation sequences (incl. loads that fail half-way) on one Decoder object over a foreign layout
 	Stray    int      `json:"stray,omitempty"`    // a file matching <base>.*.par2 that holds only another set's packets: 1 = listed first, 2 = between the volumes, 3 = last, 4 = first and last
 	Damage   string   `json:"damage"`             // none, del0, del1, ovw0, ovw1
 	G        int      `json:"g,omitempty"`
@@ -162,6 +163,17 @@ func c06Alternatives(allPerms bool) []func(*c06Case) {
 func c06Gen(g *core.Gen) {
 	d0 := c06Default()
 	g.Emit(&d0)
+	// one Decoder object over a foreign layout (names not in block order, non-contiguous exponents): every operation
+	// sequence incl. reloads that fail half-way (error-path alphabet of the decoder protocol search, see C14)
+	decDepth := 5
+	if g.Thorough() {
+		decDepth = 6
+	}
+	for _, a := range dpFaultAlphabet {
+		for _, b := range dpFaultAlphabet {
+			g.Emit(&c06Case{Dec: &decProtoCase{Fmt: "p2", Prefix: []int{a, b}, Depth: decDepth, Fault: true, Ref: true}})
+		}
+	}
 	// files above 16 KiB, two generations sharing every id; each read alone and right after the other generation
 	for big := 1; big <= 2; big++ {
 		for _, prior := range []bool{false, true} {
@@ -225,6 +237,10 @@ var c06Seq int
 
 func c06Run(ci interface{}, r *core.Rec) {
 	c := ci.(*c06Case)
+	if c.Dec != nil {
+		decProtoRun(c.Dec, r, func(d *decProtoCase) interface{} { return &c06Case{Dec: d} })
+		return
+	}
 	c06Seq++
 	root := filepath.Join(workerScratch(), fmt.Sprintf("c06-%d", c06Seq))
 	os.RemoveAll(root)
